@@ -1261,12 +1261,32 @@ class _FoldExpr(ast.NodeTransformer):
         return n
 
 
+def _simplify_test(e: ast.AST) -> ast.AST:
+    """in a test position only the truth matters: `True and x` is `x`, `False or x` is `x`,
+    constant operands that do not decide the result are dropped"""
+    if isinstance(e, ast.UnaryOp) and isinstance(e.op, ast.Not):
+        e.operand = _simplify_test(e.operand)
+        return e
+    if isinstance(e, ast.BoolOp):
+        vals = [_simplify_test(v) for v in e.values]
+        neutral = True if isinstance(e.op, ast.And) else False
+        kept = [v for v in vals if _const_truth(v) is not neutral]
+        if not kept:
+            return ast.copy_location(ast.Constant(neutral), e)
+        if len(kept) == 1:
+            return kept[0]
+        e.values = kept
+    return e
+
+
 def _fold_block(stmts: List[ast.stmt]) -> List[ast.stmt]:
     out: List[ast.stmt] = []
     for s in stmts:
         if isinstance(s, (ast.FunctionDef, ast.AsyncFunctionDef, ast.ClassDef)):
             out.append(s)
             continue
+        if isinstance(s, (ast.If, ast.While)) and _const_truth(s.test) is None:
+            s.test = _simplify_test(s.test)
         if isinstance(s, ast.If):
             t = _const_truth(s.test)
             if t is True:
